@@ -49,11 +49,72 @@ class TensorVal:
 
 
 class XPoly(Poly):
-    """a polynomial wrapped by ``Expr(.., target_idx=..)``: remembers the target indices"""
+    """model of an ``expr_container.Expr``: a *mutable* record around a polynomial.  Which methods update the record and
+    return it, and which return a new record, is read off the source of expr_container.py (``expr_method_kinds``);
+    ``.sympy`` is an immutable snapshot (plain ``Poly``)."""
 
-    def __init__(self, terms=None, target=None):
+    def __init__(self, terms=None, target=None, kinds=None):
         super().__init__(terms)
         self.target = target
+        self.kinds = kinds or {}
+
+    def result(self, method, poly):
+        """outcome of the Expr method ``method`` whose value is ``poly``"""
+        k = self.kinds.get(method)
+        if k == "inplace":
+            self.terms = list(poly.terms)
+            return self
+        if k == "fresh":
+            return XPoly(poly.terms, self.target, self.kinds)
+        raise AnalysisError(f"Expr.{method}: neither updates the container and returns it nor returns a new container on "
+                            "every path (expr_container.py), the model cannot follow it")
+
+    @staticmethod
+    def _val(o):
+        return Poly(list(o.terms)) if isinstance(o, Poly) else o
+
+    def __add__(self, o):
+        return self.result("__add__", Poly(list(self.terms)) + self._val(o))
+
+    def __radd__(self, o):
+        return self.result("__radd__", self._val(o) + Poly(list(self.terms)))
+
+    def __sub__(self, o):
+        return self.result("__sub__", Poly(list(self.terms)) - self._val(o))
+
+    def __rsub__(self, o):
+        return self.result("__rsub__", Poly.lift(self._val(o)) - Poly(list(self.terms)))
+
+    def __mul__(self, o):
+        return self.result("__mul__", Poly(list(self.terms)) * self._val(o))
+
+    def __rmul__(self, o):
+        return self.result("__rmul__", Poly.lift(self._val(o)) * Poly(list(self.terms)))
+
+    def __truediv__(self, o):
+        return self.result("__truediv__", Poly(list(self.terms)) / self._val(o))
+
+    def __rtruediv__(self, o):
+        return self.result("__rtruediv__", Poly.lift(self._val(o)) / Poly(list(self.terms)))
+
+    def __neg__(self):
+        raise AnalysisError("unary minus on an Expr container (the library defines none)")
+
+    def __pow__(self, n):
+        raise AnalysisError("power of an Expr container is outside the formula IR")
+
+    def sx_inplace(self, sx, op, v, node):
+        import ast as _ast
+        tbl = {_ast.Add: ("__iadd__", "__add__"), _ast.Sub: ("__isub__", "__sub__"), _ast.Mult: ("__imul__", "__mul__"),
+               _ast.Div: ("__itruediv__", "__truediv__")}
+        if type(op) not in tbl:
+            return NotImplemented
+        im, m = tbl[type(op)]
+        cur = Poly(list(self.terms))
+        v = self._val(v)
+        val = {"__add__": lambda: cur + v, "__sub__": lambda: cur - v, "__mul__": lambda: cur * v,
+               "__truediv__": lambda: cur / v}[m]()
+        return self.result(im if self.kinds.get(im) is not None else m, val)
 
 
 def names(x):
@@ -102,6 +163,7 @@ class _Eval:
         self.current = "?"
         m = self.model.module(MOD)
         self.mod = m
+        self.kinds = expr_method_kinds(ctx)
 
         def inline(q):
             return True
@@ -198,7 +260,11 @@ class _Eval:
     def h_tensor(self, sx, a, kw):
         b = sx.bind(self.model.fn(f"{MOD}:RegisteredIntermediate.tensor"), a, kw, False, True, True)
         n, idx = self._validated(b["self"], b.get("indices"), "tensor")
-        return tensor_factor("itmd", n, idx)
+        t = tensor_factor("itmd", n, idx)
+        rs = b.get("return_sympy")
+        if not isinstance(rs, bool):
+            raise AnalysisError(f"{self.current}: tensor(return_sympy={rs!r})")
+        return t if rs else XPoly(t.terms, None, self.kinds)  # sympy object | Expr container
 
     def h_expand_itmd(self, sx, a, kw):
         b = sx.bind(self.model.fn(f"{MOD}:RegisteredIntermediate.expand_itmd"), a, kw, False, True, True)
@@ -206,7 +272,11 @@ class _Eval:
         full = b.get("fully_expand")
         if not isinstance(full, bool):
             raise AnalysisError(f"{self.current}: expand_itmd(fully_expand={full!r})")
-        return self.expansion(n, idx, full)
+        rs = b.get("return_sympy")
+        if not isinstance(rs, bool):
+            raise AnalysisError(f"{self.current}: expand_itmd(return_sympy={rs!r})")
+        p = self.expansion(n, idx, full)
+        return p if rs else XPoly(p.terms, tuple(idx), self.kinds)
 
     def expansion(self, n, idx, full):
         """what ``<n>.expand_itmd(indices=idx, fully_expand=full)`` returns: the cached base expression with the targets
@@ -230,7 +300,8 @@ class _Eval:
         p = Poly.lift(x) if not isinstance(x, TensorVal) else None
         if p is None:
             raise AnalysisError(f"{self.current}: Expr({x!r}) outside the formula IR")
-        return XPoly(p.terms, None if tgt is None else tuple(names(tgt if isinstance(tgt, str) else list(tgt))))
+        return XPoly(list(p.terms), None if tgt is None else tuple(names(tgt if isinstance(tgt, str) else list(tgt))),
+                     self.kinds)
 
     # ------------------------------------------------------ model of Poly methods
     def attr_hook(self, sx, obj, attr, node):
@@ -238,38 +309,51 @@ class _Eval:
             return NotImplemented
         if not isinstance(obj, Poly):
             return NotImplemented
-        tgt = getattr(obj, "target", None)
+        box = isinstance(obj, XPoly)  # Expr container (mutable) | sympy object (immutable value)
+        cur = Poly(list(obj.terms))
+
+        def out(method, poly):
+            return obj.result(method, poly) if box else poly
+
         if attr == "sympy":
-            return Poly(obj.terms)
-        if attr in ("copy", "expand"):
-            return lambda s, a, kw: XPoly(obj.terms, tgt)
+            if not box:
+                return NotImplemented  # sympy objects have no .sympy
+            return cur
+        if attr in ("copy", "expand", "doit"):
+            return lambda s, a, kw: out(attr, cur)
         if attr == "permute":
+            if not box:
+                return NotImplemented  # only the containers know permute
+
             def permute(s, a, kw):
                 for p in a:
                     if not (isinstance(p, (tuple, list)) and len(p) == 2):
                         raise AnalysisError(f"{self.current}: permute({a!r}) not understood")
-                return XPoly(obj.permute(*[tuple(names(list(p))) for p in a]).terms, tgt)
+                return out("permute", cur.permute(*[tuple(names(list(p))) for p in a]))
             return permute
         if attr == "subs":
             def subs(s, a, kw):
                 pairs = a[0].items() if a and isinstance(a[0], dict) else a[0] if len(a) == 1 else [tuple(a)] if len(a) == 2 else None
                 try:
+                    pairs = list(pairs)
                     mp = {names([k])[0]: names([v])[0] for k, v in pairs}
                 except (TypeError, ValueError):
                     raise AnalysisError(f"{self.current}: subs argument not understood")
-                if len(mp) != len(list(pairs)):
+                if len(mp) != len(pairs):
                     raise AnalysisError(f"{self.current}: subs with a repeated key")
                 if kw.get("simultaneous") is not True and set(mp) & set(mp.values()) and any(k != v for k, v in mp.items()):
                     raise AnalysisError(f"{self.current}: subs of overlapping indices without simultaneous=True")
-                return XPoly(obj.rename(mp).terms, tgt)
+                return out("subs", cur.rename(mp))
             return subs
         if attr == "substitute_contracted":
-            return lambda s, a, kw: substitute_contracted(obj, tgt, self.current)
+            if not box:
+                return NotImplemented
+            return lambda s, a, kw: out("substitute_contracted", substitute_contracted(cur, obj.target, self.current))
         if attr == "atoms":
             def atoms(s, a, kw):
                 if len(a) != 1 or not (isinstance(a[0], ClassRef) and a[0].short == "Index"):
                     raise AnalysisError(f"{self.current}: atoms({a!r}) outside the formula IR")
-                return set(obj.indices())
+                return set(cur.indices())
             return atoms
         return NotImplemented
 
@@ -286,6 +370,65 @@ class _Eval:
         cr = ClassRef(self.mod, cname)
         outs = self.sx._explore(lambda: self.sx.getattr(cr, attr, None))
         return outs[0].value
+
+
+EXPR_METHODS = ("permute", "subs", "expand", "doit", "copy", "substitute_contracted",
+                "__add__", "__sub__", "__mul__", "__truediv__", "__radd__", "__rsub__", "__rmul__", "__rtruediv__",
+                "__iadd__", "__isub__", "__imul__", "__itruediv__")
+
+
+def expr_method_kinds(ctx):
+    """How the methods of expr_container.Expr treat the container, read off their source by abstract evaluation on an
+    abstract ``self``: 'inplace' (every returning path returns ``self`` and some path assigns ``self._expr``), 'fresh'
+    (every returning path returns a new ``Expr(...)`` and none assigns ``self._expr``), None (anything else / missing)."""
+    key = ("expr-kinds", ctx.model.digest)
+    if key in _CACHE:
+        return _CACHE[key]
+    from ..terms import T, sym, args_of
+    model = ctx.model
+    model.module("expr_container")
+    inl = {f"expr_container:{c}.{m}" for c in ("Expr", "Container") for m in EXPR_METHODS + ("sympy",)}
+    kinds = {}
+    for meth in EXPR_METHODS:
+        sx = Symex(model, inline=lambda q: q in inl, what=f"Expr.{meth}", max_paths=256)
+        found = sx.find_method("expr_container:Expr", meth)
+        if found is None:
+            kinds[meth] = None
+            continue
+        fn = found[0]
+        params = [a.arg for a in fn.args.args][1:]
+        objs = []
+
+        def make(fn=fn, params=params, objs=objs):
+            o = Obj("expr_container:Expr", "self", _expr=sym("E0"))
+            objs.append(o)
+            d = dict(self=o)
+            for p in params:
+                d[p] = sym(p.upper())
+            if fn.args.vararg:
+                d[fn.args.vararg.arg] = ((sym("P"), sym("Q")),)
+            if fn.args.kwarg:
+                d[fn.args.kwarg.arg] = {}
+            return d
+        outs = sx.run(fn, make)
+        if len(outs) != len(objs):
+            raise AnalysisError(f"Expr.{meth}: evaluation paths lost")
+        rets = [(o, me) for o, me in zip(outs, objs) if o.kind == "return"]
+        if not rets:
+            kinds[meth] = None
+            continue
+        changed = [me.attrs.get("_expr") != sym("E0") for _, me in rets]
+        if all(o.value is me for o, me in rets) and any(changed):
+            kinds[meth] = "inplace"
+        elif all(isinstance(o.value, T) and o.value.op == "call" and o.value.args[0] == "Expr" for o, _ in rets) \
+                and not any(changed):
+            kinds[meth] = "fresh"
+            if meth == "copy" and any(list(args_of(o.value).values())[:1] != [sym("E0")] for o, _ in rets):
+                kinds[meth] = None  # a copy that does not wrap the same expression
+        else:
+            kinds[meth] = None
+    _CACHE[key] = kinds
+    return kinds
 
 
 def einstein_target(poly):
@@ -333,7 +476,7 @@ def substitute_contracted(poly, target, what="?"):
                         break
                 mp[i] = cand
         out += Poly([(c, fs)]).rename(mp).terms
-    return XPoly(out, tuple(target))
+    return Poly(out)
 
 
 # ---------------------------------------------------------------------------
